@@ -87,6 +87,14 @@ func strEdits(s []byte) (names []string, outs [][]byte) {
 		b[0] = c
 		add(fmt.Sprintf("first=%02x", c), b)
 	}
+	if i := bytes.Index(s, []byte("://")); i >= 0 {
+		// a URL: the same host with an explicit port
+		j := i + 3
+		for j < len(s) && s[j] != '/' && s[j] != '?' && s[j] != '#' {
+			j++
+		}
+		add("urlPort", append(append(append([]byte(nil), s[:j]...), []byte(":8080")...), s[j:]...))
+	}
 	add("upper", bytes.ToUpper(s))
 	add("half", append([]byte(nil), s[:len(s)/2]...))
 	return
